@@ -494,3 +494,78 @@ pub fn parse_schedules(lines: &[String]) -> Vec<Schedule> {
 pub fn flatten(s: &Schedule) -> Vec<KCmd> {
     s.iter().flatten().cloned().collect()
 }
+
+/// A comb: a spine `s_1 .. s_n` of lowest-priority commands; every `s_i` has one more child `t_i`
+/// of the highest basic priority (optionally followed by a short chain).  Every spine command is
+/// a convergence point that stays pending until its high-priority child is consumed at the very end,
+/// in id (= random) order: the convergence map then holds ~n live entries whose blocks are reloaded
+/// in random order while the BFS keeps inserting into whichever block is active.
+/// `join`: merge the teeth pairwise into a single second head (otherwise they all stay heads).
+pub fn comb_dag(rng: &mut Rng, n: usize, tooth: usize, join: bool, log_every: usize) -> Dag {
+    let mut d = init_dag();
+    let trunk = push(&mut d, vec![0], Priority::Basic(1), log_every);
+    let mut s = trunk;
+    let mut teeth = vec![];
+    for _ in 0..n {
+        let t0 = push(&mut d, vec![s], Priority::Basic(9), log_every);
+        let mut t = t0;
+        for _ in 0..tooth {
+            t = push(&mut d, vec![t], basic(rng, 8, 9), log_every);
+        }
+        teeth.push(t);
+        s = push(&mut d, vec![s], Priority::Basic(0), log_every);
+    }
+    if join {
+        while teeth.len() > 1 {
+            let mut next = vec![];
+            for pair in teeth.chunks(2) {
+                if pair.len() == 2 {
+                    next.push(push(&mut d, vec![pair[0], pair[1]], Priority::Merge, log_every));
+                } else {
+                    next.push(pair[0]);
+                }
+            }
+            teeth = next;
+        }
+    }
+    d
+}
+
+/// A wide level: `w` fork commands that are all children of the trunk (same max cut), each with
+/// two children joined by a merge, the merges joined by a tree of merges into one head; `plain`
+/// further children of the trunk with a short chain on top, joined into the second head.  With
+/// `w > 768` the convergence map holds more than three blocks of entries that all have the same
+/// max cut.
+pub fn wide_dag(rng: &mut Rng, w: usize, plain: usize, log_every: usize) -> Dag {
+    let mut d = init_dag();
+    let trunk = push(&mut d, vec![0], Priority::Basic(1), log_every);
+    let mut tops = vec![];
+    for _ in 0..w {
+        let f = push(&mut d, vec![trunk], basic(rng, 1, 3), log_every);
+        let a = push(&mut d, vec![f], basic(rng, 1, 3), log_every);
+        let b = push(&mut d, vec![f], basic(rng, 1, 3), log_every);
+        tops.push(push(&mut d, vec![a, b], Priority::Merge, log_every));
+    }
+    let join = |d: &mut Dag, mut tops: Vec<usize>| -> usize {
+        while tops.len() > 1 {
+            let mut next = vec![];
+            for pair in tops.chunks(2) {
+                if pair.len() == 2 {
+                    next.push(push(d, vec![pair[0], pair[1]], Priority::Merge, log_every));
+                } else {
+                    next.push(pair[0]);
+                }
+            }
+            tops = next;
+        }
+        tops[0]
+    };
+    join(&mut d, tops);
+    let mut ps = vec![];
+    for _ in 0..plain.max(1) {
+        let u = push(&mut d, vec![trunk], Priority::Basic(2), log_every);
+        ps.push(push(&mut d, vec![u], Priority::Basic(2), log_every));
+    }
+    join(&mut d, ps);
+    d
+}
